@@ -2,7 +2,8 @@
 
 T-corr: the extracted model of the matching-cost step (Model/MatchingCost.v: shifted right images,
         point_interval, pixel-wise costs, strided window sums, border re-NaN, census transform + xor +
-        popcount, mean/std rasters by cumulative sums, masks_dilatation, cv_masked) against the REAL
+        popcount, mean/std rasters by cumulative sums, the early all-NaN return of census / zncc on images
+        smaller than the window, masks_dilatation, cv_masked) against the REAL
         code driven through the entry points the state machine uses (AbstractMatchingCost,
         allocate_cost_volume, validity_mask, compute_cost_volume, cv_masked).
 Spec  : the boolean `computable` and the textbook `*_spec` of Spec/Cost.v, extracted from Coq, applied
@@ -21,7 +22,8 @@ RULE = ("random image pairs 3..14 x 4..18 (mono / 2-3 bands with band selection;
         "nearly flat radiometry; right = shifted left + noise or independent), masks with valid/nodata/invalid "
         "cells (40% next to a border), intervals: one point, all negative, all positive, wider than the image, "
         "beyond one side, ordinary; 35% per-pixel grids with min <= max; measure x window {1,3,5,7} (census "
-        "{3,5}) x subpix {1,2,4}; plus images smaller than the window. One case = one cost volume (every "
+        "{3,5}) x subpix {1,2,4}; plus images smaller than the window, 1..w+2 rows/columns (census / zncc return "
+        "early there: all NaN expected, any exception is a violation). One case = one cost volume (every "
         "cost compared). Non-trivial: the volume holds both NaN and non-NaN costs; distinct by (measure, "
         "window, subpix, size, interval/grid, masks present, hash of the images)")
 ASSUMES = [
@@ -117,9 +119,10 @@ def gen_cases(ctx, n):
     combos = [c for c in combos if c[0] in SUPPORTED]
     for m, w, s in combos:
         cases.append(mu.gen_case(rng, measure=m, window=w, subpix=s, max_nd=40))
-    # images smaller than the window (no cost is computable; census / zncc raise on some of them)
+    # images smaller than / as small as the window (no or one cost is computable; census / zncc return early,
+    # all NaN, when min(rows, cols) < window -- they raised there before the repair)
     for m in SUPPORTED:
-        for _ in range(3 if ctx.tier == "quick" else 12):
+        for _ in range(6 if ctx.tier == "quick" else 24):
             w = rng.choice([3, 5]) if m == "census" else rng.choice([3, 5, 7])
             c = mu.gen_case(rng, measure=m, window=w, max_nd=12)
             if rng.random() < 0.5:
